@@ -4,7 +4,8 @@ from common import *
 import vm_corr, vm_checks, progs
 
 PROP_MODULE = "NeverModel.Props.C15"
-REQUIRED = ["Never.C15.mark_ret_roundtrip", "Never.C15.execute_restores_sp", "Never.C15.first_execute_initialises_once", "Never.C15.failed_execute_restores_sp", "Never.C15.compile_state_accounted", "Never.C15.globals_translated"]
+REQUIRED = ["Never.C15.mark_ret_roundtrip", "Never.C15.execute_restores_sp", "Never.C15.first_execute_initialises_once", "Never.C15.failed_execute_restores_sp", "Never.C15.compile_state_accounted", "Never.C15.globals_translated",
+            "Never.C15.call_restores_sp", "Never.C15.history_restores_sp", "Never.C15.history_then_begin_restores_sp"]
 
 API_PROG = """
 var total = %d;
